@@ -827,6 +827,7 @@ pub fn run_shard(ctx: &mut Ctx) {
     let deadline = ctx.t0 + ctx.budget_s;
     if !is09 {
         // zero tails under a vote type whose decoder has its own validity check (and error kind)
+        ctx.begin_phase(0.1);
         let n = if ctx.tier == Tier::Quick { 3 } else { 200 };
         for _ in 0..n {
             if !ctx.time_left() {
@@ -840,6 +841,7 @@ pub fn run_shard(ctx: &mut Ctx) {
                 Err(vi) => ctx.out.viol(vi),
             }
         }
+        ctx.end_phase();
     }
     loop {
         if ctx.tier == Tier::Quick && h >= quick_images {
@@ -859,7 +861,9 @@ pub fn run_shard(ctx: &mut Ctx) {
         let before09 = s09.opens;
         let before10 = s10.opens;
         if is09 {
-            let all = ctx.tier == Tier::Thorough;
+            // (thorough: the first image of a shard is swept like in the quick tier so that every kind of image and
+            // oracle gets its turn inside the time box; all 255 values from the second image on)
+            let all = ctx.tier == Tier::Thorough && h > 1;
             c09_after_open(&ci, &mut r, &mut s09, &mut viols, deadline);
             let done = c09_image(&ci, &mut r, all, &mut s09, &mut viols, deadline);
             if done && all {
@@ -903,7 +907,7 @@ pub fn run_shard(ctx: &mut Ctx) {
             }
             if let Some(lo) = lo {
                 let b = s09.opens;
-                let all = ctx.tier == Tier::Thorough;
+                let all = ctx.tier == Tier::Thorough && h > 1;
                 let done = c09_image_y(&lo, &mut r, all, &mut s09, &mut viols, deadline, false, if all { usize::MAX } else { 4 });
                 if done && all {
                     s09.exhaustive_images += 1;
